@@ -42,8 +42,23 @@ NTok == Len(Toks)
 Ety == Case.ety
 TopMode == Case.mode
 
-(* span between two cursors, in the offsets of the input kind *)
-SpanOf(i, j) == <<Case.offs[i + 1], Case.offs[j + 1]>>
+(* Span between two cursors, in the offsets of the input kind (Input::span).                  *)
+(* Contiguous kinds (&str, slices, Stream, IoInput, with_context, map_span): offs[i] is the     *)
+(* offset of cursor i.  Kinds whose tokens carry their own spans (Input::map over a slice or a  *)
+(* Stream, IterInput) are modelled with gapped spans: token k covers 3k+1 .. 3k+2, eoi = 3n.    *)
+(* MappedInput::span / IterInput::span take the START of the token after the first cursor and   *)
+(* the END of the token before the second one -- for an empty match that is an inverted span    *)
+(* (or one reaching to eoi at cursor 0): deviation site "mapped_span" (C07), chosen in Init.    *)
+GappedKinds == {"mapped", "mstream", "iter"}
+Gapped == Case.kind \in GappedKinds
+MappedDefect == "mapped_span" \in DOMAIN kf /\ kf["mapped_span"] = "on"
+GStart(i) == 3 * i + 1
+SpanOf(i, j) ==
+  IF ~Gapped THEN <<Case.offs[i + 1], Case.offs[j + 1]>>
+  ELSE IF i = NTok THEN <<3 * NTok, 3 * NTok>>
+  ELSE IF j > i THEN <<GStart(i), 3 * j - 1>>
+  ELSE IF MappedDefect THEN <<GStart(i), IF j > 0 THEN 3 * j - 1 ELSE 3 * NTok>>
+  ELSE <<GStart(i), GStart(i)>>       \* an empty match: an empty span just before the following token
 TokAt(i) == IF i < NTok THEN Toks[i + 1] ELSE ""     \* token after cursor i, "" at end of input
 
 ---------------------------------------------------------------------------
@@ -528,7 +543,7 @@ ASepItemRet ==
 IterMode(f) == IF Op(f.g) = "run" THEN "C" ELSE f.mode
 
 AConsumerStart ==
-  /\ Entering({"collect", "exact", "run", "foldr"})
+  /\ Entering({"collect", "exact", "run", "foldr", "foldrw"})
   /\ LET f == Top
          it == f.g[2]
      IN IF Op(f.g) = "run" /\ Op(it) = "rep" /\ it[3] = 0 /\ it[4] = Inf
@@ -568,38 +583,55 @@ AExactRet ==
 
 (* Foldl::go: A, then fold the items of the iterator B from the left *)
 AFoldlStart ==
-  /\ Entering({"foldl"})
+  /\ Entering({"foldl", "foldlw"})
   /\ LET f == Top IN Call([f EXCEPT !.pc = 1], 1, f.g[2], f.mode, cur, sec, insp, alt)
 
 AFoldlARet ==
-  /\ Resuming({"foldl"}, 1)
+  /\ Resuming({"foldl", "foldlw"}, 1)
   /\ LET f == Top IN
      IF ~ret.ok THEN Keep(ErrRet)
      ELSE CallIter([f EXCEPT !.pc = 2, !.acc = <<ret.val>>], 2, f.g[3], f.mode, 0, cur, sec, insp, alt)
 
+(* foldl_with: the folder also sees the span from the start of A to the end of the item just *)
+(* folded in (MapExtra::new(&before_all, inp)), the context and the state                     *)
 AFoldlItRet ==
-  /\ Resuming({"foldl"}, 2)
-  /\ LET f == Top IN
+  /\ Resuming({"foldl", "foldlw"}, 2)
+  /\ LET f == Top
+         sp == SpanOf(f.cp.cur, cur)
+         step == IF Op(f.g) = "foldl" THEN VF(f.g[4], f.acc[1], ret.val)
+                 ELSE VW(VF(f.g[4], f.acc[1], ret.val), sp[1], sp[2], f.ctx, insp)
+     IN
      IF ~ret.ok THEN Keep(ErrRet)
      ELSE IF ret.some
-     THEN CallIter([f EXCEPT !.acc = <<MV(f.mode, VF(f.g[4], f.acc[1], ret.val))>>], 2, f.g[3], f.mode, ret.n,
-                   cur, sec, insp, alt)
+     THEN CallIter([f EXCEPT !.acc = <<MV(f.mode, step)>>], 2, f.g[3], f.mode, ret.n, cur, sec, insp, alt)
      ELSE Keep(OkRet(f.acc[1]))
 
 (* Foldr::go: collect the items of iterator A, then B, then fold from the right *)
+(* foldr_with remembers the cursor before each item (cp2 is refreshed before every `next`);   *)
+(* after B every fold step sees the span from that cursor to the END of everything            *)
 AFoldrItRet ==
-  /\ Resuming({"foldr"}, 1)
+  /\ Resuming({"foldr", "foldrw"}, 1)
   /\ LET f == Top IN
      IF ~ret.ok THEN Keep(ErrRet)
      ELSE IF ret.some
-     THEN CallIter([f EXCEPT !.acc = Append(f.acc, ret.val)], 1, f.g[2], f.mode, ret.n, cur, sec, insp, alt)
+     THEN CallIter([f EXCEPT !.acc = Append(f.acc, <<ret.val, f.cp2.cur>>), !.cp2 = Cp(cur, Len(sec), insp)],
+                   1, f.g[2], f.mode, ret.n, cur, sec, insp, alt)
      ELSE Call([f EXCEPT !.pc = 2], 2, f.g[3], f.mode, cur, sec, insp, alt)
 
+RECURSIVE FoldRW(_, _, _, _, _, _)
+FoldRW(fn, items, acc, c, ic, cend) ==
+  IF items = <<>> THEN acc
+  ELSE LET sp == SpanOf(Head(items)[2], cend) IN
+       VW(VF(fn, Head(items)[1], FoldRW(fn, Tail(items), acc, c, ic, cend)), sp[1], sp[2], c, ic)
+
 AFoldrBRet ==
-  /\ Resuming({"foldr"}, 2)
-  /\ LET f == Top IN
+  /\ Resuming({"foldr", "foldrw"}, 2)
+  /\ LET f == Top
+         vals == [i \in DOMAIN f.acc |-> f.acc[i][1]]
+     IN
      IF ~ret.ok THEN Keep(ErrRet)
-     ELSE Keep(OkRet(MV(f.mode, FoldR(f.g[4], f.acc, ret.val))))
+     ELSE IF Op(f.g) = "foldr" THEN Keep(OkRet(MV(f.mode, FoldR(f.g[4], vals, ret.val))))
+     ELSE Keep(OkRet(MV(f.mode, FoldRW(f.g[4], f.acc, ret.val, f.ctx, insp, cur))))
 
 
 ---------------------------------------------------------------------------
@@ -843,7 +875,8 @@ Init ==
   /\ ret = NoRet
   /\ cur = 0 /\ alt = NoAlt /\ sec = <<>> /\ insp = 0
   /\ memo = <<>>
-  /\ kf = <<>>
+  /\ kf \in (IF "mapped_span" \in KFSites /\ Cases[cid].kind \in GappedKinds
+             THEN {<<>>, "mapped_span" :> "on"} ELSE {<<>>})
   /\ st = [done |-> FALSE, panicked |-> FALSE, steps |-> 0]
   /\ obs = <<>>
   /\ result = NoResult
